@@ -32,6 +32,25 @@ class StepBudgetExceeded(KeyboardInterrupt):
     (KeyboardInterrupt subclass: asyncio tasks re-raise it instead of storing it.)"""
 
 
+class DetTask(asyncio.Task):
+    """asyncio.Task whose hash is its creation number within the run.
+
+    pydra keeps its task futures in sets (`task_futures`, the `completed` set returned by
+    asyncio.wait) and iterates over them; with the default identity hash that order depends
+    on memory addresses, i.e. on the history of the process, not on the seed.  Under the
+    simulated loop `asyncio.Task` is this class, so the order is a function of the run."""
+
+    _seq = 0
+
+    def __init__(self, *a, **k):
+        DetTask._seq += 1
+        self._det_hash = DetTask._seq  # before super().__init__: it registers the task in a WeakSet
+        super().__init__(*a, **k)
+
+    def __hash__(self):
+        return self._det_hash
+
+
 class SimDeadlock(KeyboardInterrupt):
     """Nothing is runnable, no timer is pending and the main coroutine is not done."""
 
@@ -471,6 +490,9 @@ class SimEnv:
 
         wcf.cf = _CfShim()
         real_cse = asyncio.create_subprocess_exec
+        real_task = (asyncio.Task, asyncio.tasks.Task)
+        DetTask._seq = 0
+        asyncio.Task = asyncio.tasks.Task = DetTask
         if self.cluster is not None:
             asyncio.create_subprocess_exec = self.cluster.exec
         files = {sub.__file__: "submitter.py", job.__file__: "job.py", result.__file__: "result.py"}
@@ -502,6 +524,7 @@ class SimEnv:
                 status, val = "hang", f"{self.hang}: (surfaced as {val if not isinstance(val, dict) else val.get('type')})"
             wcf.cf = cf
             asyncio.create_subprocess_exec = real_cse
+            asyncio.Task, asyncio.tasks.Task = real_task
             try:
                 # drop whatever is left on the loop without running it
                 loop._ready.clear()
